@@ -431,7 +431,7 @@ def pipeline_specs(I):
     return out
 
 
-def run_pipeline(I, N, C, T, names=None):
+def run_pipeline(I, N, C, T, names=None, first=None):
     """Returns (per (input index in glob order, simulation index): trials seen by Analysis and in the merged file,
     planned triples, error text or None)."""
     import panqec.cli as pcli
@@ -448,6 +448,12 @@ def run_pipeline(I, N, C, T, names=None):
         InProcess.log = []
         fake_mp = types.SimpleNamespace(Process=InProcess, cpu_count=lambda: C)
         with silence(), mock.patch.object(pcli, 'multiprocessing', fake_mp):
+            if first is not None:
+                # an earlier, smaller request left partial results in the same directory (wall-time kill and
+                # resubmission, or a first pass with fewer trials); no --delete-existing
+                for job in range(1, N + 1):
+                    pcli.run_parallel.callback(d, first, N, job, C, False)
+                InProcess.log = []
             for job in range(1, N + 1):
                 pcli.run_parallel.callback(d, T, N, job, C, False)
         planned = [(os.path.basename(p.args[0]), os.path.basename(p.args[1]), p.args[2]) for p in InProcess.log]
